@@ -9,6 +9,7 @@ TEST = '''package chunkinfo_test
 import (
 	"bytes"
 	"context"
+	"errors"
 	"io"
 	"testing"
 
@@ -22,6 +23,7 @@ import (
 	"github.com/gauss-project/aurorafs/pkg/p2p/streamtest"
 	rmock "github.com/gauss-project/aurorafs/pkg/routetab/mock"
 	omock "github.com/gauss-project/aurorafs/pkg/settlement/chain/oracle/mock"
+	leveldbstate "github.com/gauss-project/aurorafs/pkg/statestore/leveldb"
 	smock "github.com/gauss-project/aurorafs/pkg/statestore/mock"
 	"github.com/gauss-project/aurorafs/pkg/storage"
 	"github.com/gauss-project/aurorafs/pkg/storage/mock"
@@ -163,6 +165,48 @@ func TestVerifReplay(t *testing.T) {
 			if nd.Equal(root) { continue }
 			if err := ci2.OnChunkRetrieved(nd, root, self); err != nil { continue }
 			if check("after reading an intermediate (non-data) chunk of the file", ci2) { return }
+		}
+	}
+	// (c) two files that share a data chunk are both recorded as read; one is deleted the way the
+	// API handler does it (chunks picked through the pyramid's reference counts): the survivor's
+	// record must not mark a chunk present that is no longer stored
+	{
+		store := mock.NewStorer()
+		tr := traversal.New(store)
+		ss, err := leveldbstate.NewInMemoryStateStore(logging.New(io.Discard, 0))
+		if err != nil { t.Fatal(err) }
+		defer ss.Close()
+		ci := newChunkInfo(t, self, tr, ss, store)
+		shared := block('S')
+		rootA := upload(t, ctx, store, append(append(append([]byte{}, block('a')...), block('A')...), shared...))
+		rootB := upload(t, ctx, store, append(append(append([]byte{}, block('b')...), shared...), block('B')...))
+		data := func(root boson.Address) []boson.Address {
+			lists, _, err := tr.GetChunkHashes(ctx, root, nil)
+			if err != nil { t.Fatal(err) }
+			var out []boson.Address
+			seen := map[string]bool{}
+			for _, l := range lists { for _, h := range l { a := boson.NewAddress(h); if !seen[a.String()] { seen[a.String()] = true; out = append(out, a) } } }
+			return out
+		}
+		chunksA, chunksB := data(rootA), data(rootB)
+		for _, c := range chunksA { if err := ci.OnChunkRetrieved(c, rootA, self); err != nil { t.Logf("not reproduced: %v", err); return } }
+		for _, c := range chunksB { if err := ci.OnChunkRetrieved(c, rootB, self); err != nil { t.Logf("not reproduced: %v", err); return } }
+		del := func() error {
+			for _, c := range ci.GetChunkPyramid(rootA) {
+				if c.Cid.Equal(rootA) { continue }
+				for i := 0; i < c.Number; i++ {
+					if err := store.Set(ctx, storage.ModeSetRemove, c.Cid); err != nil && !errors.Is(err, storage.ErrNotFound) { return err }
+				}
+			}
+			return store.Set(ctx, storage.ModeSetRemove, rootA)
+		}
+		if err := ci.DelFile(rootA, del); err != nil { t.Logf("not reproduced: %v", err); return }
+		l, b := ownBits(t, ci, rootB, self)
+		for i := 0; i < l && i < len(chunksB); i++ {
+			if b[i/8]&(1<<uint(i%8)) == 0 { continue }
+			if has, _ := store.Has(ctx, storage.ModeHasChunk, chunksB[i]); !has {
+				t.Logf("REPLAY-CONFIRMED after deleting a file that shares a data chunk with file B, B's own availability record still marks data chunk #%d present although it is no longer stored locally", i); return
+			}
 		}
 	}
 	t.Logf("not reproduced")
